@@ -3450,6 +3450,7 @@ int main(int argc, char** argv) {
   J viol = J::Arr();
   J samples = J::Arr();
   uint64_t scenarios = 0, incomplete = 0, trivial = 0;
+  J incomplete_names = J::Arr();
   map<int, int> known_kept;
   int unknown_kept = 0;
   if (a.Has("known")) {
@@ -3534,7 +3535,7 @@ int main(int argc, char** argv) {
       if (budget > 0) ex.deadline = t0 + budget;
       ex.Explore((int)a.GetInt("depth", -1));
       scenarios++;
-      if (!ex.st.complete) incomplete++;
+      if (!ex.st.complete) { incomplete++; incomplete_names.push(sc.name); }
       if (ex.st.multi_outcome_points == 0) trivial++;
       total.states += ex.st.states;
       total.transitions += ex.st.transitions;
@@ -3575,6 +3576,7 @@ int main(int argc, char** argv) {
       J out = J::Obj();
     out.set("scenarios", scenarios);
     out.set("incomplete_scenarios", incomplete);
+    out.set("incomplete_scenario_names", incomplete_names);
     out.set("single_outcome_scenarios", trivial);
     out.set("states", total.states);
     out.set("transitions", total.transitions);
